@@ -9,6 +9,7 @@ use std::cell::Cell;
 thread_local! {
     static NOW: Cell<Duration> = const { Cell::new(Duration::ZERO) };
     static READS: Cell<u64> = const { Cell::new(0) };
+    static READ_STEP: Cell<Duration> = const { Cell::new(Duration::ZERO) };
 }
 
 /// Stand-in for `std::time::Instant`, driven by the harness.
@@ -19,7 +20,14 @@ impl Instant {
     /// The current reading of this thread's simulated monotonic clock.
     pub fn now() -> Instant {
         READS.with(|r| r.set(r.get().wrapping_add(1)));
-        Instant(NOW.with(|n| n.get()))
+        let step = READ_STEP.with(|s| s.get());
+        // Time may pass between two reads of the clock, also within one call into the library:
+        // every read advances the simulated clock by the configured step (zero by default).
+        Instant(NOW.with(|n| {
+            let t = n.get();
+            n.set(t.saturating_add(step));
+            t
+        }))
     }
 
     /// Time elapsed since this instant (saturating, like `std`).
@@ -31,6 +39,11 @@ impl Instant {
 /// Sets this thread's simulated clock.
 pub fn set_now(d: Duration) {
     NOW.with(|n| n.set(d));
+}
+
+/// Makes every clock read advance this thread's simulated clock by `d` afterwards.
+pub fn set_read_step(d: Duration) {
+    READ_STEP.with(|s| s.set(d));
 }
 
 /// Reads this thread's simulated clock without counting as a clock read.
